@@ -14,13 +14,18 @@ C20 — Blank fields mean 'missing' and padding never influences the result.
 
 `padding_inert_counted_records` (attitude: only the count and the n points; data quality: the fixed fields and the first n
 entries of the two tables — unused slots, trailing blanks, preamble are inert) and `padding_inert_volume_directory` (the
-file-pointer records are inert).  Line records (the µs stamp is rebased on the ms stamp's date): by the oracle (padding rewritten
-with random content of its class, bit-exact tree fingerprints) — not by a theorem.  `bool(-1) = True` for blank flag columns is
-exempt by the property's own wording.
+file-pointer records are inert).  `padding_inert_line_records` — ANY number of line records (either kind) that pairwise agree
+on the bytes of their live fields give the same per-line group and the same byte ranges (the µs stamp of the signal-data record
+is read relative to the ms stamp's date: both live); `padding_inert_image_file` — two image files that open, hold the same
+number of line records and agree on the live fields of the descriptor and of every line record give the same group name, image
+group and lazy-array description, for every `records_per_chunk` (the same-number hypothesis is necessary: a file cut after a whole
+record still opens — counterexample in `Proofs/PaddingLines.lean`).  `bool(-1) = True` for blank flag columns is exempt by the
+property's own wording.
 -/
 import Alos2.Proofs.Typing
 import Alos2.Proofs.Typing2
 import Alos2.Proofs.Padding2
+import Alos2.Proofs.PaddingLines
 
 namespace Alos2.C20
 
@@ -84,6 +89,44 @@ theorem padding_inert_volume_directory (ctx ctx' : Ctx) (bs bs' : Bytes) (pos : 
     (hw2 : slice bs (pos + 360 * (k + 1)) (pos + 360 * (k + 2)) = slice bs' (pos + 360 * (k + 1)) (pos + 360 * (k + 2))) :
     transformVolumeRecord realLeafFns v.toPVal = transformVolumeRecord realLeafFns v'.toPVal :=
   volume_directory_padding_inert ctx ctx' bs bs' pos v v' e e' k h h' hk hw1 hw2
+
+/-- line records, any number of them: twin lists (each pair parsed at the same position from byte strings that agree on
+    every live field, rebased by the same offset) give the same per-line group and the same pixel byte ranges -/
+theorem padding_inert_line_records (c : Con) (hc : c = Gen.processedDataRecord ∨ c = Gen.signalDataRecord)
+    (recs recs' : List Val) (hn : 0 < recs.length) (h : ImgOpen.All2 (PaddingTwin c) recs recs') :
+    (transformLineMetadata (Val.toPVal.toPVals recs)).sortKeys = (transformLineMetadata (Val.toPVal.toPVals recs')).sortKeys ∧
+    recs.mapM (fun r => do
+      let a ← intAt r ["data", "start"]
+      let b ← intAt r ["data", "stop"]
+      pure (a, b)) =
+    recs'.mapM (fun r => do
+      let a ← intAt r ["data", "start"]
+      let b ← intAt r ["data", "stop"]
+      pure (a, b)) := by
+  refine ⟨?_, byte_ranges_padding_inert c hc recs recs' h⟩
+  rcases hc with rfl | rfl
+  · exact line_records_padding_inert_15 recs recs' hn h
+  · exact line_records_padding_inert_11 recs recs' hn h
+
+/-- a whole image file through the reader (`open_image` without caches, any `records_per_chunk`) -/
+theorem padding_inert_image_file (file file' : Bytes) (name : String) (rpc : Nat)
+    (n1 n2 : String) (g1 g2 : ImageGroup)
+    (h1 : openImageFile file name rpc = .ok (n1, g1)) (h2 : openImageFile file' name rpc = .ok (n2, g2))
+    (hd1 hd2 : Val) (recs1 recs2 : List Val)
+    (hr1 : readImageRecords file rpc = .ok (hd1, recs1)) (hr2 : readImageRecords file' rpc = .ok (hd2, recs2))
+    (hn : 0 < recs1.length) (hlen : recs2.length = recs1.length)
+    (hhdr : LiveAgree Gen.imageFileDescriptor 0 (file.take 720) (file'.take 720))
+    (L : Nat) (hL : 0 < L) (hdrL : intAt hd1 ["sar_data_record_length"] = .ok (L : Int))
+    (t : Nat) (ht : t = 10 ∨ t = 11)
+    (hrl1 : ∀ r ∈ recs1, intAt r ["preamble", "record_length"] = .ok (L : Int))
+    (hty1 : ∀ r ∈ recs1, intAt r ["preamble", "record_type"] = .ok (t : Int))
+    (hrl2 : ∀ r ∈ recs2, intAt r ["preamble", "record_length"] = .ok (L : Int))
+    (hty2 : ∀ r ∈ recs2, intAt r ["preamble", "record_type"] = .ok (t : Int))
+    (hrec : ∀ i, i < recs1.length →
+      LiveAgree (if t = 10 then Gen.signalDataRecord else Gen.processedDataRecord) (720 + i * L) file file') :
+    n1 = n2 ∧ g1.group.sortKeys = g2.group.sortKeys ∧ g1.array = g2.array :=
+  openImageFile_padding_inert file file' name rpc n1 n2 g1 g2 h1 h2 hd1 hd2 recs1 recs2 hr1 hr2 hn hlen hhdr L hL hdrL t ht
+    hrl1 hty1 hrl2 hty2 hrec
 
 theorem live_fields_only2 :
     pathsCovered (Spec.platformPosition.leaves.flatMap Sym.paths) Gen.platformPositionRecord = true ∧
